@@ -6,12 +6,13 @@ CONSTANTS
   MaxStops = 1000000
   MaxResets = 1000000
   MaxRestarts = 1000000
-  JoinSubscriber = FALSE
+  JoinSubscriber = TRUE
   Mutant = "none"
   LateAccepts = TRUE
   RecordHist = FALSE
   TraceFile = "trace.ndjson"
   MaxSilent = 8
+  NoProgressK = 5
 INVARIANTS
   TraceHW
   TInvBatchContiguous
@@ -20,5 +21,6 @@ INVARIANTS
   TInvPersistedLeAcked
   TInvPersistedLeAckedSinceReset
   TInvLastLeAcked
+  TInvProgressAfterFailures
 POSTCONDITION TraceAccepted
 CHECK_DEADLOCK FALSE
